@@ -13,7 +13,7 @@ from typing import List
 
 from sa.core.common import AnalysisError, Collector, REPO
 from sa.core.paths import enumerate_paths, guards, parent_map
-from sa.core.pyfacts import Repo, arg, call_name, const_str, kwarg, src, walk_no_nested
+from sa.core.pyfacts import Repo, arg, call_name, const_str, kwarg, src, walk_no_nested, ordk, ordk_end
 from sa.core.scope_typestate import ScopeInterp, St
 from sa.props._tr import ACTIVE_HANDLERS, check_container_elements, cursor_actions, defs_of, resolve_name, strip_cast, visitor_methods
 
@@ -146,7 +146,7 @@ def check(col: Collector, tier: str):
                     emitted = [c for c in walk_no_nested(fn_) if isinstance(c, ast.Call) and call_name(c) == "add_statement" and cvar
                                and f"self.get_rep({cvar[0]})" in src(c)]
                     mk = [c for c in walk_no_nested(fn_) if isinstance(c, ast.Call) and call_name(c) == "make_sequence_from_collection"]
-                    okr = shape_ok and len(emitted) == 1 and len(mk) == 1 and emitted[0].lineno < mk[0].lineno
+                    okr = shape_ok and len(emitted) == 1 and len(mk) == 1 and ordk(emitted[0]) < ordk(mk[0])
                     why = f"iota arguments {elts}, emitted {len(emitted)} time(s)"
             col.add("C01.R2", f.short, "range-elements-are-begin..end-1", okr,
                     f"the vector behind Range must be filled by std::iota(v.begin(), v.end(), <begin>) emitted before the loop is opened ({why}); "
@@ -281,7 +281,7 @@ def check_get_rep(col, f):
         pm = parent_map(n)
         sets = [c for c in ast.walk(n) if isinstance(c, ast.Call) and call_name(c) == "set_scope" and src(c.args[0]) == tok]
         vis = [c for c in ast.walk(n) if isinstance(c, ast.Call) and call_name(c) == "visit"]
-        ok = len(sets) == 1 and len(vis) == 1 and s_defs[0].lineno < vis[0].lineno < sets[0].lineno and \
+        ok = len(sets) == 1 and len(vis) == 1 and ordk(s_defs[0]) < ordk(vis[0]) < ordk(sets[0]) and \
             [(src(t), tr) for t, tr in guards(n, sets[0], pm)] == [(f"{tok} is None", False)]
     col.add("C01.R2", f.short, "retain_scope-captures-before-and-restores-after", ok,
             "get_rep must capture the scope before visiting when retain_scope is set and restore it right after the visit", f.loc)
